@@ -234,4 +234,31 @@ PROPS = {
         assumptions=["writers are serialised by the writes channel (Append = enqueue), so 2..4 writer goroutines differ from one only in queue order", "no DeleteRange in these schedules (its interleavings with Append are covered sequentially by C08: DeleteRange drains the queue first)"],
         timeout={"quick": 900, "thorough": 3400},
     ),
+    "C03": dict(
+        props_files=["GoHeader/Props/C03.lean", "GoHeader/Props/C07.lean"], gen=["rangeAmount"], block=True,
+        canon=lambda b: "\n".join(l for l in b.split("\n") if l.startswith(("op ", "case "))),
+        nontrivial=lambda b: b.count("op gossip") >= 2,
+        rule="real Syncer (Start, sync loop running) over a real Store, a subscriber that captures the verifier, a scripted getter (ok / prefix / error / empty slice / range not starting at from+1); "
+             "gossip deliveries through the captured verifier: valid heads (adjacent, skipping, stale, duplicate), forged, other-fork, wrong chain id, future-dated, earlier-than-trusted; trust ranges (bifurcation); "
+             "after each delivery the loop runs to quiescence and every height of the Store is classified genuine / foreign / absent; distinct = distinct script; non-trivial = at least two deliveries",
+        trusted_base=[KERNEL, HARNESS_TB,
+                      "Sync.Machine is a SEQUENTIAL hand model (one event at a time to quiescence); tie = after every gossip delivery the real Syncer's verdict, Store head, sync target and State error are compared with the model",
+                      "quiescence of the real sync loop is detected by polling (store head, pending ranges, getter log unchanged for 12 ms)",
+                      "when getter faults are scripted AND a bifurcation promotes intermediates, which sync run meets the fault is scheduling-dependent: from there on only verdicts and the property predicates are compared (recorded in DESIGN.md)"],
+        assumptions=["interleavings of the gossip handler with a RUNNING sync (syncStore.Append under races) are not explored: events are sequential", "store write errors and Stop races are outside the quantifier"],
+        timeout={"quick": 600, "thorough": 3000},
+    ),
+    "C07": dict(
+        props_files=["GoHeader/Props/C07.lean"], gen=["rangeAmount", "finished"], block=True,
+        canon=lambda b: "\n".join(l for l in b.split("\n") if l.startswith(("op ", "case "))),
+        nontrivial=lambda b: b.count("op gossip") >= 2,
+        rule="as C03 with valid heads only: adjacent / skipping / bursts, getter cutting ranges into prefixes of every length and finite runs of errors; after each accepted head with an error-free getter the Store head must equal the target, "
+             "State() must be finished without error and SyncWait must return; after an error nothing may be lost and the next head must complete the sync; distinct = distinct script; non-trivial = at least two deliveries",
+        trusted_base=[KERNEL, HARNESS_TB,
+                      "Sync.Machine is a SEQUENTIAL hand model (one event at a time to quiescence); tie = after every gossip delivery the real Syncer's verdict, Store head, sync target and State error are compared with the model",
+                      "quiescence of the real sync loop is detected by polling (store head, pending ranges, getter log unchanged for 12 ms)",
+                      "when getter faults are scripted AND a bifurcation promotes intermediates, which sync run meets the fault is scheduling-dependent: from there on only verdicts and the property predicates are compared (recorded in DESIGN.md)"],
+        assumptions=["'eventually' is observed as quiescence within 0.8 s and proved as a decreasing measure (every honest answer stores >= 1 header) - scheduler fairness is trusted", "heads arriving WHILE a sync runs are delivered sequentially here (the 1-buffered trigger is not modelled)"],
+        timeout={"quick": 600, "thorough": 3000},
+    ),
 }
